@@ -4,6 +4,9 @@ import json, os, subprocess
 HERE = os.path.dirname(os.path.abspath(__file__))
 
 CHECKS = {
+ "C19": dict(cat="exploration", tech="runtime monitoring + sanitizer: hand-assembled bytecode calling a probe library; argument vector conserved across harness -> H-FFI hook snapshot -> probe log, printed operand stack and error reports checked; valgrind memcheck on a sample is part of the verdict",
+   text="Binary .mmm programs push argument vectors (all kind vectors of length <= 2 over int/bigint/float/byte/bool/str exhaustively x 10 probe functions, boundary values, two-call chains, seeded vectors of length 3-6), execute `call_lib` into the probe cdylib (built against /repo/bytecode with the same flags) and print the operand stack plus a sentinel. Oracle: assembled vector == hook `L` record == what the probe received (floats by bits), pushed value == returned value (or nothing), and for a raised error / missing library / missing symbol: exit 1, interpreter report with the message, sentinel absent and no instruction event after the failing call_lib. A sample of every class runs under valgrind memcheck (--error-exitcode): any memcheck error is a violation.",
+   note="Assumes host and probe are compiled by the same rustc with the same flags (the FFI passes Rust types). Miri cannot cross the dlopen boundary, hence memcheck.", ref="§3 C19"),
  "C04": dict(cat="exploration", tech="runtime monitoring / differential twins: `run` vs `compile`+`execute` of the same program; stdout, exit class and the instruction streams of every loaded function (H-DUMP hook) compared",
    text="Corpus (examples + programs embedded in the tests), generated multi-module projects (2-4 modules, both import forms, sub-directories), generated control-flow programs and, exhaustively, all strings of length 0-4 over the 10 format-special symbols (quote, backslash, space, TAB, LF, CR, n, r, t, e-acute; length 4 sampled in quick) in three roles (print operand, map key, assert operand) run through both pipelines in separate directories; compared: stdout, exit/failure class, and per (file, function) opcodes and argument lists (make_function captures as a multiset). Failing string batches are bisected to single literals.",
    note="Trusted: H-DUMP hook; programs that do not compile are outside the domain (values ending in a backslash have no literal and are verified rejected); outputs containing addresses / hash-ordered maps are compared modulo that freedom.", ref="§3 C04"),
